@@ -196,6 +196,12 @@ structure RT where
   free : Names          -- free variables of the new clause bodies (decides the binding)
   deriving Inhabited
 
+/-- the type-switch binding stays only when a clause of the new switch uses it -/
+def keepBind (bind : Option String) (free : Names) : Option String :=
+  match bind with
+  | some x => if free.contains x then some x else none
+  | none => none
+
 /-! ### `dce_block_with_live`, `dce_expr` -/
 mutual
 def dceExpr : GExpr → GExpr
@@ -206,8 +212,8 @@ def dceExpr : GExpr → GExpr
   | .alit t es => .alit t (dceExprs es)
   | .un op t e => .un op t (dceExpr e)
   | .bin op t l r => .bin op t (dceExpr l) (dceExpr r)
-  | .blocke t ss e =>
-    .blocke t (dceStmts ss []).out (match e with | some e => some (dceExpr e) | none => none)
+  | .blocke t ss (some e) => .blocke t (dceStmts ss []).out (some (dceExpr e))
+  | .blocke t ss none => .blocke t (dceStmts ss []).out none
   | .call t f args => .call t (dceExpr f) (dceExprs args)
   | .nil t => .nil t
   | .voidv t => .voidv t
@@ -229,115 +235,95 @@ def dceFields : List GField → List GField
 def dceStmts : List GStmt → Names → R
   | [], liveOut => ⟨[], liveOut, []⟩
   | s :: rest, liveOut =>
-    let r := dceStmts rest liveOut
-    let r' := dceStmt s r.live r.needs
-    ⟨r'.out ++ r.out, r'.live, r'.needs⟩
+    ⟨(dceStmt s (dceStmts rest liveOut).live (dceStmts rest liveOut).needs).out ++ (dceStmts rest liveOut).out,
+      (dceStmt s (dceStmts rest liveOut).live (dceStmts rest liveOut).needs).live,
+      (dceStmt s (dceStmts rest liveOut).live (dceStmts rest liveOut).needs).needs⟩
 
 /-- one iteration of the backward scan: `live`/`needs` are the sets after the statement -/
 def dceStmt : GStmt → Names → Names → R
   | .expr e, live, needs =>
-    let e := dceExpr e
-    ⟨[.expr e], uni live (varsUsed e), needs⟩
+    ⟨[.expr (dceExpr e)], uni live (varsUsed (dceExpr e)), needs⟩
   | .go c, live, needs =>
-    let c := dceExpr c
-    ⟨[.go c], uni live (varsUsed c), needs⟩
-  | .varDecl x ty v, live, needs =>
-    let v : Option GExpr := match v with | some e => some (dceExpr e) | none => none
-    let used : Names := match v with | some e => varsUsed e | none => []
+    ⟨[.go (dceExpr c)], uni live (varsUsed (dceExpr c)), needs⟩
+  | .varDecl x ty (some e), live, needs =>
     if live.contains x then
-      ⟨[.varDecl x ty v], rem (uni live used) x, needs⟩
+      ⟨[.varDecl x ty (some (dceExpr e))], rem (uni live (varsUsed (dceExpr e))) x, needs⟩
     else if needs.contains x then
-      match v with
-      | some e =>
-        if exprEffects e then ⟨[.varDecl x ty none, keepEffect e], uni live used, rem needs x⟩
-        else ⟨[.varDecl x ty none], live, rem needs x⟩
-      | none => ⟨[.varDecl x ty none], live, rem needs x⟩
+      if exprEffects (dceExpr e) then
+        ⟨[.varDecl x ty none, keepEffect (dceExpr e)], uni live (varsUsed (dceExpr e)), rem needs x⟩
+      else ⟨[.varDecl x ty none], live, rem needs x⟩
     else
-      match v with
-      | some e => if exprEffects e then ⟨[keepEffect e], uni live used, needs⟩ else ⟨[], live, needs⟩
-      | none => ⟨[], live, needs⟩
+      if exprEffects (dceExpr e) then ⟨[keepEffect (dceExpr e)], uni live (varsUsed (dceExpr e)), needs⟩
+      else ⟨[], live, needs⟩
+  | .varDecl x ty none, live, needs =>
+    if live.contains x then ⟨[.varDecl x ty none], rem live x, needs⟩
+    else if needs.contains x then ⟨[.varDecl x ty none], live, rem needs x⟩
+    else ⟨[], live, needs⟩
   | .assign x v, live, needs =>
-    let v := dceExpr v
-    let used := varsUsed v
     if live.contains x then
-      ⟨[.assign x v], rem (uni live used) x, uni needs [x]⟩
-    else if exprEffects v then ⟨[keepEffect v], uni live used, needs⟩
+      ⟨[.assign x (dceExpr v)], rem (uni live (varsUsed (dceExpr v))) x, uni needs [x]⟩
+    else if exprEffects (dceExpr v) then
+      ⟨[keepEffect (dceExpr v)], uni live (varsUsed (dceExpr v)), needs⟩
     else ⟨[], live, needs⟩
   | .indexAssign a i v, live, needs =>
-    let a := dceExpr a
-    let i := dceExpr i
-    let v := dceExpr v
-    ⟨[.indexAssign a i v], uni (uni (uni live (varsUsed a)) (varsUsed i)) (varsUsed v), needs⟩
+    ⟨[.indexAssign (dceExpr a) (dceExpr i) (dceExpr v)],
+      uni (uni (uni live (varsUsed (dceExpr a))) (varsUsed (dceExpr i))) (varsUsed (dceExpr v)), needs⟩
   | .ptrAssign p v, live, needs =>
-    let p := dceExpr p
-    let v := dceExpr v
-    ⟨[.ptrAssign p v], uni (uni live (varsUsed p)) (varsUsed v), needs⟩
+    ⟨[.ptrAssign (dceExpr p) (dceExpr v)],
+      uni (uni live (varsUsed (dceExpr p))) (varsUsed (dceExpr v)), needs⟩
   | .fieldAssign t v, live, needs =>
-    let t := dceExpr t
-    let v := dceExpr v
-    ⟨[.fieldAssign t v], uni (uni live (varsUsed t)) (varsUsed v), needs⟩
-  | .ret e, live, needs =>
-    match e with
-    | some e =>
-      let e := dceExpr e
-      ⟨[.ret (some e)], uni live (varsUsed e), needs⟩
-    | none => ⟨[.ret none], live, needs⟩
+    ⟨[.fieldAssign (dceExpr t) (dceExpr v)],
+      uni (uni live (varsUsed (dceExpr t))) (varsUsed (dceExpr v)), needs⟩
+  | .ret (some e), live, needs =>
+    ⟨[.ret (some (dceExpr e))], uni live (varsUsed (dceExpr e)), needs⟩
+  | .ret none, live, needs => ⟨[.ret none], live, needs⟩
   | .loop body, live, needs =>
-    let rb := dceStmts body live
-    ⟨[.loop rb.out], uni live rb.live, uni needs (assignedStmts rb.out)⟩
+    ⟨[.loop (dceStmts body live).out], uni live (dceStmts body live).live,
+      uni needs (assignedStmts (dceStmts body live).out)⟩
   | .brk, live, needs => ⟨[.brk], live, needs⟩
-  | .ite c t e, live, needs =>
-    let c := dceExpr c
-    let rt := dceStmts t live
-    match e with
-    | some b =>
-      let re := dceStmts b live
-      ⟨[.ite c rt.out (some re.out)], uni (uni (uni live (varsUsed c)) rt.live) re.live,
-        uni (uni needs (assignedStmts rt.out)) (assignedStmts re.out)⟩
-    | none =>
-      ⟨[.ite c rt.out none], uni (uni live (varsUsed c)) rt.live, uni needs (assignedStmts rt.out)⟩
-  | .switch e cs d, live, needs =>
-    let e := dceExpr e
-    let rc := dceCases cs live
-    match d with
-    | some b =>
-      let rd := dceStmts b rc.live
-      ⟨[.switch e rc.cases (some rd.out)], uni (uni (uni rc.live (varsUsed e)) rc.liveIn) rd.live,
-        uni (uni needs rc.needs) (assignedStmts rd.out)⟩
-    | none =>
-      ⟨[.switch e rc.cases none], uni (uni rc.live (varsUsed e)) rc.liveIn, uni needs rc.needs⟩
-  | .tswitch bind e cs d, live, needs =>
-    let e := dceExpr e
-    let rc := dceTCases cs live
-    match d with
-    | some b =>
-      let rd := dceStmts b live
-      let bind := match bind with
-        | some x => if rc.free.contains x || (freeVars rd.out).contains x then some x else none
-        | none => none
-      ⟨[.tswitch bind e rc.cases (some rd.out)], uni (uni (uni live (varsUsed e)) rc.liveIn) rd.live,
-        uni (uni needs rc.needs) (assignedStmts rd.out)⟩
-    | none =>
-      let bind := match bind with
-        | some x => if rc.free.contains x then some x else none
-        | none => none
-      ⟨[.tswitch bind e rc.cases none], uni (uni live (varsUsed e)) rc.liveIn, uni needs rc.needs⟩
+  | .ite c t (some b), live, needs =>
+    ⟨[.ite (dceExpr c) (dceStmts t live).out (some (dceStmts b live).out)],
+      uni (uni (uni live (varsUsed (dceExpr c))) (dceStmts t live).live) (dceStmts b live).live,
+      uni (uni needs (assignedStmts (dceStmts t live).out)) (assignedStmts (dceStmts b live).out)⟩
+  | .ite c t none, live, needs =>
+    ⟨[.ite (dceExpr c) (dceStmts t live).out none],
+      uni (uni live (varsUsed (dceExpr c))) (dceStmts t live).live,
+      uni needs (assignedStmts (dceStmts t live).out)⟩
+  | .switch e cs (some b), live, needs =>
+    ⟨[.switch (dceExpr e) (dceCases cs live).cases (some (dceStmts b (dceCases cs live).live).out)],
+      uni (uni (uni (dceCases cs live).live (varsUsed (dceExpr e))) (dceCases cs live).liveIn)
+        (dceStmts b (dceCases cs live).live).live,
+      uni (uni needs (dceCases cs live).needs)
+        (assignedStmts (dceStmts b (dceCases cs live).live).out)⟩
+  | .switch e cs none, live, needs =>
+    ⟨[.switch (dceExpr e) (dceCases cs live).cases none],
+      uni (uni (dceCases cs live).live (varsUsed (dceExpr e))) (dceCases cs live).liveIn,
+      uni needs (dceCases cs live).needs⟩
+  | .tswitch bind e cs (some b), live, needs =>
+    ⟨[.tswitch (keepBind bind (uni (dceTCases cs live).free (freeVars (dceStmts b live).out)))
+        (dceExpr e) (dceTCases cs live).cases (some (dceStmts b live).out)],
+      uni (uni (uni live (varsUsed (dceExpr e))) (dceTCases cs live).liveIn) (dceStmts b live).live,
+      uni (uni needs (dceTCases cs live).needs) (assignedStmts (dceStmts b live).out)⟩
+  | .tswitch bind e cs none, live, needs =>
+    ⟨[.tswitch (keepBind bind (dceTCases cs live).free) (dceExpr e) (dceTCases cs live).cases none],
+      uni (uni live (varsUsed (dceExpr e))) (dceTCases cs live).liveIn,
+      uni needs (dceTCases cs live).needs⟩
 
 def dceCases : List GCase → Names → RC
   | [], live => ⟨[], live, [], []⟩
   | .mk v b :: rest, live =>
-    let v := dceExpr v
-    let rb := dceStmts b live
-    let rc := dceCases rest (uni live (varsUsed v))
-    ⟨.mk v rb.out :: rc.cases, rc.live, uni rb.live rc.liveIn, uni (assignedStmts rb.out) rc.needs⟩
+    ⟨.mk (dceExpr v) (dceStmts b live).out :: (dceCases rest (uni live (varsUsed (dceExpr v)))).cases,
+      (dceCases rest (uni live (varsUsed (dceExpr v)))).live,
+      uni (dceStmts b live).live (dceCases rest (uni live (varsUsed (dceExpr v)))).liveIn,
+      uni (assignedStmts (dceStmts b live).out) (dceCases rest (uni live (varsUsed (dceExpr v)))).needs⟩
 
 def dceTCases : List GTCase → Names → RT
   | [], _ => ⟨[], [], [], []⟩
   | .mk t b :: rest, live =>
-    let rb := dceStmts b live
-    let rc := dceTCases rest live
-    ⟨.mk t rb.out :: rc.cases, uni rb.live rc.liveIn, uni (assignedStmts rb.out) rc.needs,
-      uni (freeVars rb.out) rc.free⟩
+    ⟨.mk t (dceStmts b live).out :: (dceTCases rest live).cases,
+      uni (dceStmts b live).live (dceTCases rest live).liveIn,
+      uni (assignedStmts (dceStmts b live).out) (dceTCases rest live).needs,
+      uni (freeVars (dceStmts b live).out) (dceTCases rest live).free⟩
 end
 
 /-- `dce_block_with_live(body, ∅).0` -/
@@ -680,6 +666,11 @@ def declsTCases : List GTCase → Names
   | .mk _ b :: rest => allDecls b ++ declsTCases rest
 end
 
+/-- the scope after a statement: a declaration adds its name -/
+def declScope : GStmt → Names → Names
+  | .varDecl x _ _, scope => x :: scope
+  | _, scope => scope
+
 /-- the names of `us` that are locals of the function (`D`) but not in scope -/
 def undecl (D scope : Names) (us : Names) : Names :=
   us.filter (fun x => D.contains x && !(scope.contains x))
@@ -694,8 +685,7 @@ mutual
 def scopeErrs (D : Names) : Names → List GStmt → Names
   | _, [] => []
   | scope, s :: rest =>
-    scopeErrsStmt D scope s ++
-      scopeErrs D (match s with | .varDecl x _ _ => x :: scope | _ => scope) rest
+    scopeErrsStmt D scope s ++ scopeErrs D (declScope s scope) rest
 def scopeErrsStmt (D : Names) : Names → GStmt → Names
   | scope, .expr e => undecl D scope (varsUsed e)
   | scope, .go c => undecl D scope (varsUsed c)
